@@ -103,7 +103,7 @@ def run_config(chk, config):
     chk.require_anchor(len(seen_variants - {"?"}) >= 40, "AVP::write analysed for 40 variants (found %d)" % len(seen_variants - {"?"}))
 
     # refusal exists for AVP > 1023: a panic is reachable in make_flags_and_length / AVP::write
-    ref = [o for o in eng.obligs.values() if o.kind == "panic-reach" and o.failed]
+    ref = [o for o in eng.obligs.values() if o.kind in ("panic-reach", "unwrap") and o.failed]
     chk.oblig(bool(ref), "refusal | AVP::write", "AVP::write has no refusing (panicking) path for an oversize AVP", {"rule": "oversize is refused"},
               {"obligation": "a refusal path exists for AVPs over 1023 octets", "site": ref[0].key() if ref else None})
 
@@ -146,7 +146,7 @@ def run_config(chk, config):
     chk.oblig(not outside, "tiling | ControlMessage::write", "octets are emitted between the control header and the Length patch outside AVP::write: %s" % outside[:2],
               {"rule": "AVPs tile the body: only AVP::write emits between header and end", "contexts": outside[:5]},
               {"obligation": "AVPs tile the control message body exactly"})
-    ref = [o for o in eng.obligs.values() if o.kind == "panic-reach" and o.failed and o.fn.endswith("ControlMessage::write")]
+    ref = [o for o in eng.obligs.values() if o.kind in ("panic-reach", "unwrap") and o.failed and o.fn.endswith("ControlMessage::write")]
     chk.oblig(bool(ref), "refusal | ControlMessage::write", "ControlMessage::write has no refusing path for a message over 65535 octets", {},
               {"obligation": "a refusal path exists for messages over 65535 octets"})
 
